@@ -298,7 +298,10 @@ class Normaliser:
                         st.rebind_opaque(name, f'`{name}` is rebound to {short(x, 40)}')
                         out.append(ast.copy_location(ast.Assign(targets=[ast.Name(id=name, ctx=ast.Store())], value=x), s))
                 if out and binds:
-                    raise Undecided(f'mixed parallel assignment {short(s)}')
+                    # some of the names stay ordinary locals: keep the whole parallel assignment as one statement
+                    for t in targets[0].elts:
+                        st.rebind_opaque(t.id, f'rebound by `{short(s, 50)}`')      # type: ignore[attr-defined]
+                    return [ast.copy_location(ast.Assign(targets=[copy.deepcopy(targets[0])], value=ast.Tuple(elts=vals, ctx=ast.Load())), s)]
                 for name, x in binds:
                     st.stale.pop(name, None)
                     st.env[name] = x
@@ -410,7 +413,14 @@ class Normaliser:
             for f in _BLOCK_FIELDS:
                 sub = getattr(s, f, None)
                 if isinstance(sub, list) and sub and isinstance(sub[0], ast.stmt):
-                    blocks[f] = self.block(sub, entry.copy()) or [ast.copy_location(ast.Pass(), s)]
+                    e = entry.copy()
+                    if f == 'body' and isinstance(s, (ast.For, ast.AsyncFor)):
+                        # the loop header binds its targets afresh at the start of every iteration: inside the body the
+                        # bare name denotes that value (like a parameter), later rebindings are substituted over it
+                        for x in ast.walk(s.target):
+                            if isinstance(x, ast.Name):
+                                e.stale.pop(x.id, None)
+                    blocks[f] = self.block(sub, e) or [ast.copy_location(ast.Pass(), s)]
             hs = [self.block(h.body, entry.copy()) or [ast.copy_location(ast.Pass(), s)] for h in getattr(s, 'handlers', [])]
             inside = self.dropped
             self.dropped = before | inside
